@@ -241,13 +241,15 @@ def dict_lit(row, order):
     return '{' + ', '.join(f'{k!r}: {fl(row[k])}' for k in order) + '}'
 
 
-def encodings(r, rows, labels, vartype_name='INTEGER', allow_float=True):
+def encodings(r, rows, labels, vartype_name='INTEGER', allow_float=True, all_dtypes=False):
     """samples-like encodings of the same rows (list of dict label->value) as python expressions.
     Returns list of (name, expression, info) where info describes the permutation structure."""
     outs = []
     n = len(labels)
     isint = all(float(row[l]).is_integer() for row in rows for l in labels)
-    dt = 'np.int8' if isint else 'np.float64'
+    mx = max([abs(float(row[l])) for row in rows for l in labels] + [0])
+    int_dts = [d for d, lim in (('np.int8', 127), ('np.int16', 32767), ('np.int32', 2 ** 31 - 1), ('np.int64', 2 ** 63 - 1)) if mx <= lim]
+    dt = int_dts[0] if isint else 'np.float64'   # the smallest integer type that holds the values (what as_samples picks)
 
     def arr_lit(perm, dtype=dt):
         body = '[' + ', '.join('[' + ', '.join(fl(row[l]) for l in perm) + ']' for row in rows) + ']'
@@ -262,6 +264,13 @@ def encodings(r, rows, labels, vartype_name='INTEGER', allow_float=True):
         outs.append(('floatarray+labels', f'({arr_lit(perm, "np.float64")}, {perm!r})', {}))
     perm = perm_of(r, labels)
     outs.append(('fortran+labels', f'(np.asfortranarray({arr_lit(perm)}), {perm!r})', {}))
+    # explicit sample dtypes: every wider integer type, float32 when the values are exact in it
+    explicit = (int_dts[1:] if isint else []) + (['np.float32'] if allow_float and mx < 2 ** 24 else [])
+    if not all_dtypes and len(explicit) > 2:
+        explicit = r.sample(explicit, 2)
+    for d in explicit:
+        perm = perm_of(r, labels)
+        outs.append((f'array[{d[3:]}]+labels', f'({arr_lit(perm, d)}, {perm!r})', {}))
     if rows:
         orders = [perm_of(r, labels) for _ in rows]
         if len(rows) >= 2 and n >= 3 and r.random() < .5:
